@@ -22,7 +22,8 @@ TIERS = {
 RULE = (
     "Each run draws (computer configuration inside the stated domain, signal recipe, delivery schedule = "
     "composition of N into chunk lengths with interleaved empty chunks and per-chunk memory kind, 0-3 "
-    "chunk_size values for frame_by_frame_calculation) from one PRNG seeded by sha256(C01:VERIF_SEED:index). "
+    "chunk_size values for frame_by_frame_calculation) from one PRNG seeded by sha256(C01:VERIF_SEED:index); in 12 % "
+    "of the runs a second live computer of the same configuration is stepped between the calls (co-tenant). "
     "A run is non-trivial when the signal is cut at least once (>= 2 non-empty deliveries) and compute_full "
     "yields at least one frame, or when a named rare-condition probe fired. Distinct = distinct schedule "
     "signatures (computer kind, frame style, kaldi_shift, dtype, N class relative to S/2, L/2+1, L, and the "
